@@ -43,6 +43,12 @@ class ReqSim(Sim):
         self.attempts = {}
         for name in ('_make_direct_connection', '_make_indirect_connection'):
             self._wrap(name)
+        # a plain-function listener of PeerInitializedEvent, as every client has (managers subscribe to it): the notification sits
+        # inside the attempt coroutines, so whatever EventBus.emit does around plain listeners happens there
+        from aioslsk.events import PeerInitializedEvent
+        self.initialized = []
+        self._pi = lambda ev: self.initialized.append(ev.connection)
+        self.bus.register(PeerInitializedEvent, self._pi)
         if sc.get('listeners'):
             self.add_listeners(sc['listeners'])     # suspending / raising listeners on the bus (see c10_sim.Sim.add_listeners)
 
